@@ -125,40 +125,8 @@ func main() {
 			panic(err)
 		}
 		solver := &specterACME.ChordSolver{KV: kv, ManagedDomains: []string{apex}}
-		setup := []string{}
-		do := func(what string, err error) {
-			if err != nil {
-				setup = append(setup, what+": "+err.Error())
-			}
-		}
-		// the order of the writes is varied with the case
-		order := []struct {
-			st string
-			ch acme.Challenge
-		}{{c.C1, ch1}, {c.C2, ch2}}
-		if i%2 == 1 {
-			order[0], order[1] = order[1], order[0]
-		}
-		if c.Empty && i%3 == 0 {
-			do("empty", kv.PrefixAppend(ctx, []byte(specterACME.VerifC48DnsKey(label)), []byte{}))
-		}
-		for _, o := range order {
-			if o.st != "absent" {
-				do("present", solver.Present(ctx, o.ch))
-			}
-		}
-		do("present managed", solver.Present(ctx, chm))
-		if c.Empty && i%3 != 0 {
-			do("empty", kv.PrefixAppend(ctx, []byte(specterACME.VerifC48DnsKey(label)), []byte{}))
-		}
-		for _, o := range order {
-			if o.st == "removed" {
-				do("cleanup", solver.CleanUp(ctx, o.ch))
-			}
-		}
-		kv.failList = c.Fail
-		kv.lists = nil
-
+		// the responder lives as long as the server: it is created before the storage reaches the state of the case and has
+		// answered the same question at earlier moments (warm-up queries; their answers are not judged)
 		var qname string
 		switch c.Q {
 		case "zone":
@@ -186,6 +154,51 @@ func main() {
 			qname = label + ".example.com."
 		}
 		h := specterACME.NewDNS(ctx, zap.NewNop(), kv, "hostmaster@example.org", zone, map[string][]string{nsName: {nsA, nsAAAA}})
+		warm := func() {
+			q := new(dns.Msg)
+			q.SetQuestion(qname, qtypes[c.T])
+			verifkit.Recover(func() { h.ServeDNS(&recWriter{}, q) })
+		}
+		if i%4 == 1 {
+			warm()
+		}
+		setup := []string{}
+		do := func(what string, err error) {
+			if err != nil {
+				setup = append(setup, what+": "+err.Error())
+			}
+		}
+		// the order of the writes is varied with the case
+		order := []struct {
+			st string
+			ch acme.Challenge
+		}{{c.C1, ch1}, {c.C2, ch2}}
+		if i%2 == 1 {
+			order[0], order[1] = order[1], order[0]
+		}
+		if c.Empty && i%3 == 0 {
+			do("empty", kv.PrefixAppend(ctx, []byte(specterACME.VerifC48DnsKey(label)), []byte{}))
+		}
+		for _, o := range order {
+			if o.st != "absent" {
+				do("present", solver.Present(ctx, o.ch))
+			}
+		}
+		do("present managed", solver.Present(ctx, chm))
+		if i%2 == 0 {
+			warm()
+		}
+		if c.Empty && i%3 != 0 {
+			do("empty", kv.PrefixAppend(ctx, []byte(specterACME.VerifC48DnsKey(label)), []byte{}))
+		}
+		for _, o := range order {
+			if o.st == "removed" {
+				do("cleanup", solver.CleanUp(ctx, o.ch))
+			}
+		}
+		kv.failList = c.Fail
+		kv.lists = nil
+
 		q := new(dns.Msg)
 		q.SetQuestion(qname, qtypes[c.T])
 		w := &recWriter{}
